@@ -60,3 +60,13 @@ def range_removed(corners, edit):
 def sheet_match(ignore, ref_is_empty, edited_is_own, ref_is_edited):
     """Does a reference with sheet qualifier `ref` belong to the edited sheet?"""
     return bool(ignore or (ref_is_empty and edited_is_own) or ref_is_edited)
+
+
+# What decides whether an object "lies inside the removed band" (C07: "deleting exactly what lay inside the removed band"):
+# the cell / row / column / range the object is attached to - not where it happens to be displayed.
+POSITION_FIELDS = {
+    "structs::comment::Comment": {"coordinate"},              # a comment belongs to its cell; its pop-up box anchor is presentation
+    "structs::column::Column": {"col_num"},
+    "structs::row::Row": {"row_num"},
+    "structs::conditional_formatting::ConditionalFormatting": {"sequence_of_references"},
+}
